@@ -75,6 +75,9 @@ def c14(tapes, params):
         elif rk == 1:
             comm.Route = g.choice([[(1, 0), (2, '10.0.0.9'), (1, 0)], [(1, 3), (1, 0)], [(2, '192.168.1.20'), (1, 5)]], 'route')
         stats['route'] = rk
+        # pylogix keeps its connected-message sequence counter for the life of the PLC object (across
+        # reconnects): a long-lived client is anywhere in the 16-bit range
+        comm.conn._sequence_counter = g.choice([1, 1, 0x7FFD, 0xFFFB, 0x8000 + g.draw(0x7F00, 'pseq0')], 'pseqk')
         for n in range(nops):
             try:
                 one_call(comm, n)
